@@ -17,11 +17,11 @@ RECURSIVE After(_, _, _)
 After(m, es, i) == IF i = 0 THEN m ELSE ApplyEdit(After(m, es, i - 1), es[i])
 
 Verdict(e) ==
-  LET bad == {i \in DOMAIN e.edits : ModelDiff(After(e.model, e.edits, i), e.steps[i]) # ""} IN
+  LET bad == {i \in DOMAIN e.edits : ModelDiff(Eff(After(e.model, e.edits, i)), e.steps[i]) # ""} IN
   IF Len(e.steps) # Len(e.edits) THEN "harness: steps missing"
   ELSE IF bad # {} THEN
        LET i == CHOOSE i \in bad : \A j \in bad : i <= j IN
-       "after edit " \o ToString(i) \o " (" \o e.edits[i].op \o ") the model differs: " \o ModelDiff(After(e.model, e.edits, i), e.steps[i])
+       "after edit " \o ToString(i) \o " (" \o e.edits[i].op \o ") the model differs: " \o ModelDiff(Eff(After(e.model, e.edits, i)), e.steps[i])
   ELSE IF e.diffs # <<>> THEN "stale rendering: " \o e.diffs[1]
   ELSE ""
 
